@@ -3,7 +3,7 @@
 # taken from ours and regenerated; the duplicate `default_opts` hunk in repo.rs is dropped.
 x="$1"
 cd /verif
-git merge agent-$x -m "merge agent-$x" >/tmp/merge.$x.log 2>&1
+git checkout -q -- evidence 2>/dev/null; git merge agent-$x -m "merge agent-$x" >/tmp/merge.$x.log 2>&1
 for f in MANIFEST.json harness/src/dispatch.rs known_findings.json lean/Driver/Main.lean lean/Rustic.lean lean/Rustic/Gen/Constants.lean; do
   git checkout --ours $f 2>/dev/null
 done
